@@ -58,8 +58,9 @@ def repo_hash():
 
 
 def rt_hash():
+    # the runtime does not include libcds headers: its cache key must not depend on the repo path
     files = _walk(os.path.join(VERIF, "rt"), (".h", ".cpp"))
-    return _hash_files(files, " ".join(BASE_FLAGS))
+    return _hash_files(files, " ".join(f for f in BASE_FLAGS if f != "-I" + REPO))
 
 
 def _run(cmd, log):
@@ -109,7 +110,7 @@ def build_rt():
     ok, log = _compile_many(jobs)
     if not ok:
         raise RuntimeError("runtime build failed:\n" + "\n".join(log))
-    _prune("rt-", 2)
+    _prune("rt-", 6)
     return d
 
 
